@@ -221,6 +221,7 @@ def run(ctx, rep):
     _netdeps.run(F, rep, "C07.net-dependencies")
     _netdeps.cycle_boundary(F, rep, "C07.cycle-boundary")
     fresh_activation(F, rep)
+    parameters_supply_their_own_function_only(F, rep)
     from props import _depfilter
     _depfilter.run(F, rep, "C07")
     fresh_cell_for_new_names_only(F, rep)
@@ -609,3 +610,57 @@ def fresh_activation(F, rep, rule="C07.fresh-activation"):
            ("%s assigns Ctx.%s: a context is handed to another call of the function, which then runs in the frame of the call before it"
             % (mir.short(writers[0][0].path), writers[0][1])) if writers else "", writers[0][2] if writers else None, fn=(writers[0][0].path if writers else f.path),
            key=rule + "|ctx-per-call")
+
+
+def parameters_supply_their_own_function_only(F, rep, rule="C07.parameter-scope"):
+    """A parameter is a variable of one function: it satisfies the uses inside that function's body and nothing else.  In the capture walk the
+    parameters are the `supplies()` of the node that opens the function (Function, MemberFunction, Constructor), consumed by that node's own
+    net_dependencies.  A node that merely *contains* functions must not pass their parameters on as its own supplies: a class body that
+    supplies the parameters of all its methods lets method m1's parameter `n` cancel method m2's use of an outer variable `n` - the class
+    then does not capture `n` and m2 reads whatever variable of that name the instantiating code has.  Who-may-reach over the call graph:
+    `<FunctionParameters as Dependencies>::supplies` is reachable from the supplies() of function-opening nodes and of enums that dispatch to
+    their variants, from no other node's supplies()."""
+    import re
+    fns = {f.path: f for f in F.crates["compiler"].fns}
+    g0 = F.call_graph()
+    target = [p for p in fns if re.search(r"FunctionParameters as compiler::ast::Dependencies>::supplies$", p)]
+    if len(target) != 1:
+        raise AnchorMissing("<FunctionParameters as Dependencies>::supplies")
+    # node types whose code generator builds a function item
+    opens_fn = set()
+    for f in F.crates["compiler"].fns:
+        owner = mir.strip_generics(f.d.get("impl_self") or "")
+        m = re.match(r"<(compiler::[\w:#]+) as compiler::ast::Compile>::compile$", f.path)
+        if m:
+            owner = m.group(1)
+        if not owner.startswith("compiler::"):
+            continue
+        for bi, si, dst, rv, s_ in f.assigns():
+            if "agg" in rv and rv["agg"].get("adt", "").endswith("ast::CompiledItem") and rv["agg"].get("v") == "Function":
+                opens_fn.add(owner)
+
+    def reach(s0):
+        seen, todo = {s0}, [s0]
+        while todo:
+            v = todo.pop()
+            for w in g0.get(v, ()):
+                for x in (w, getattr(F.fn(w), "path", None)):
+                    if x in fns and x not in seen:
+                        seen.add(x)
+                        todo.append(x)
+        return seen
+    n = 0
+    for p in sorted(fns):
+        m = re.match(r"<(compiler::[\w:#]+) as compiler::ast::Dependencies>::supplies$", p)
+        if not m or target[0] not in reach(p) or p == target[0]:
+            continue
+        t = m.group(1)
+        a = F.adt(t)
+        dispatcher = a is not None and len(a["variants"]) >= 2
+        n += 1
+        ok = t in opens_fn or dispatcher
+        rep.ob(rule, "%s passes parameters on as supplies and is the function they belong to (or an enum that dispatches to it)" % mir.short(p), "ok" if ok else "violated",
+               "" if ok else ("%s contains functions but is not one: the parameters of each of them become supplies of the whole node, so a parameter `n` of one method hides the "
+                              "outer `n` another method (or the constructor) uses from the capture list of the class" % mir.short(t)), fns[p].span, fn=p,
+               key="%s|%s" % (rule, mir.short(t)))
+    rep.floor(rule + " supplies() that pass parameters on", n, 3)
